@@ -114,6 +114,18 @@ def check_randomness(allow_files=()):
                         p = getattr(p, "_parent", None)
                     if not ok:
                         bad_calls.append(f"{rel}:{n.lineno} default_rng() outside an `if rng is None` fallback")
+                # pymc draws: the generator itself must be handed over (random_seed=<the generator>): an integer derived from it (its seed,
+                # one of its outputs) restarts the same stream on every call and leaves the generator where it was
+                if d in ("pm.draw", "pymc.draw", "pm.sample_prior_predictive", "pm.sample"):
+                    n_edges += 1
+                    arg = None
+                    for kw in n.keywords:
+                        if kw.arg == "random_seed":
+                            arg = kw.value
+                    a = dotted(arg) if arg is not None else None
+                    if not (a is not None and (a in names or a in exprs)):
+                        bad_edges.append(f"{rel}:{n.lineno} {d}(...) is not given the caller's generator itself "
+                                         f"(random_seed={ast.unparse(arg) if arg is not None else '<missing>'})")
                 # forwarding: a call to a repository function that accepts a generator must be given this function's generator
                 short = d.split(".")[-1]
                 cands = sigs.get(short, [])
